@@ -172,7 +172,8 @@ def run(ctx: Ctx):
         maxnow = case["max"]
         for op in case["ops"]:
             if op[0] == "dmp":
-                ctx.count(f"dmp:p_scan={op[4] / 1000},p_attack={op[5] / 1000}:scan={int(op[7])},attack={int(op[8])}")
+                ctx.count(f"dmp:p_scan={op[4] / 1000}:predicted-scan={int(op[7])}")
+                ctx.count(f"dmp:p_attack={op[5] / 1000}:predicted-attack={int(op[8])}")
         for q, m in zip(lines, model):
             w = q.split()
             if w[0] in ("reset", "new", "cfg"):
